@@ -222,7 +222,8 @@ def op_model(node, env=None, plain=False):
         k, val = node[1], node[2]
         return lambda xs: _ident(xs) + ([(len(xs), val if val is not None else xs[-1])] * k if xs else [])
     if name == 'start_with':
-        pad = list(node[1])
+        from .progs import padding_of
+        pad = list(padding_of(node))
         return lambda xs: ([(0, p) for p in pad] if xs else []) + _ident(xs)
     raise KeyError(name)
 
@@ -266,8 +267,14 @@ def time_windows(xs, cfg, env=None):
     wins = []
     cur = None
     ref = last = None
+    prev_t = None
     for idx, x in enumerate(xs):
         t = tm(x)
+        if prev_t is not None and t < prev_t:
+            # C07 is stated for non-decreasing timestamp sequences: which window a late item belongs to - and so which item
+            # determines a result - is not defined by any listed property
+            raise Discard('decreasing timestamps inside a time_split key (outside the domain of C07)')
+        prev_t = t
         if cur is None:
             cur = {'idx': [], 'items': [], 'close': n, 'open': idx}
             wins.append(cur)
